@@ -491,6 +491,15 @@ def controller_callbacks_are_per_output(ctx):
     cfg = CFG(f.node, m, f.module)
     writes = [n for n in body_walk(f.node) if isinstance(n, ast.Assign) and any(isinstance(t, ast.Subscript) and src(t.value) == 'self.inputCallbacks' for t in n.targets)]
     ok = not mutable_default and bool(writes)
+    if not writes and not mutable_default:
+        # `registry = self.inputCallbacks or {}; registry[name] = cb; self.inputCallbacks = registry`: a fresh dict when the immutable
+        # class default is still there, stored on the instance
+        stores_local = [s for t, v, s in attr_stores(f.node) if t.attr == 'inputCallbacks' and dotted(t.value) == 'self' and isinstance(v, ast.Name)]
+        for s in stores_local:
+            defs = [v for v, st, how in local_assigns(f.node, s.value.id) if v is not None]
+            if defs and all(isinstance(v, ast.BoolOp) and isinstance(v.op, ast.Or) and src(v.values[0]) == 'self.inputCallbacks' and
+                            isinstance(v.values[-1], (ast.Dict, ast.Call)) for v in defs):
+                ok, fresh = True, [s]
     ctx.check(ok and (decl is None or bool(fresh)), f'{ci.qualname}:inputCallbacks is per instance', decl if decl is not None else f.node,
               'immutable class default, a fresh dict is stored on the instance before the first registration',
               f'inputCallbacks is declared as `{src(decl) if decl is not None else "?"}` at class level'
